@@ -1,0 +1,39 @@
+// Copyright 2022 The Go Authors. All rights reserved.
+// Use of this source code is governed by a BSD-style
+// license that can be found in the LICENSE file.
+
+//go:build verif
+
+// Machine-checked contracts for package benchtab (//@ lines, read by
+// /verif/gocv).  Compiled only under the "verif" tag; comment-only.
+
+package benchtab
+
+// ---------------------------------------------------------------------------
+// Cell statistics (C14)
+
+// The residue keys collected in a cell come from one projection.
+//@ pure func residueOK(c *builderCell) bool = forall k1 benchproc.Key, k2 benchproc.Key :: has(c.residue, k1) && has(c.residue, k2) ==>
+//@     k1.k != nil && k1.k.proj != nil && k1.k.proj == k2.k.proj
+
+//@ func mapKeys(m map[benchproc.Key]struct{}) (r []benchproc.Key)
+//@   trusted
+//@   ensures len(r) == len(m) && (r == nil || fresh(r))
+//@   ensures forall i int :: 0 <= i < len(r) ==> has(m, r[i])
+
+// A cell's summary is the unit's assumption applied to the cell's own sample,
+// and its comparison is that assumption applied to (baseline sample, own
+// sample) in this order.
+//@ func summarizeCell(cCell *builderCell, cell *TableCell, assumption benchmath.Assumption, confidence float64)
+//@   props C14
+//@   requires cCell != nil && cell != nil && cell.Sample != nil && residueOK(cCell)
+//@   requires cell.Baseline != nil ==> cell.Baseline != cell && cell.Baseline.Sample != nil
+//@   modifies cell, cell.Sample, cell.Sample.Warnings, heap(benchproc.Projection)
+//@   ensures cell.Summary == assumption.Summary(cell.Sample, confidence)
+//@   ensures cell.Baseline == old(cell.Baseline) && cell.Sample == old(cell.Sample)
+//@   ensures cell.Baseline != nil ==> cell.Comparison == assumption.Compare(cell.Baseline.Sample, cell.Sample)
+//@   ensures cell.Baseline == nil ==> cell.Comparison == old(cell.Comparison)
+//@   ensures len(cell.Sample.Warnings) == old(len(cell.Sample.Warnings)) || len(cell.Sample.Warnings) == old(len(cell.Sample.Warnings)) + 1
+//@   loop 1:
+//@     invariant 0 <= idx() <= rlen()
+//@     decreases rlen() - idx()
